@@ -187,12 +187,6 @@ theorem paddedScan_exact (fs : List (Expr K)) (inits : List (List K)) (t : K) (n
 
 
 
-theorem iterate_curve_deriv (a : ℕ → ℕ → K) (k i n : ℕ) :
-    (d⁄dX K)^[n] (curve a k i) = curve a (k + n) i := by
-  induction n generalizing k with
-  | zero => rfl
-  | succ n ih => rw [Function.iterate_succ_apply, curve_deriv, ih]; congr 1; omega
-
 /-- **`taylorCoeffs` defines a formal solution**: the curve `U_0 = Σ_j u_j X^j / j!` built from the
 coefficients satisfies `U^(K) = f(U, U', …, t + X)` in `K⟦X⟧` -/
 theorem taylorCoeffs_solves (fs : List (Expr K)) (inits : List (List K)) (t : K)
@@ -386,51 +380,6 @@ theorem jvp_variant_exact_of_autonomous (fs : List (Expr K)) (inits : List (List
 
 /-! ## Newton doubling -/
 
-/-- number of coefficients after `n` doublings: `1, 3, 7, 15, …` (`= 2^(n+1) − 1`) -/
-def dlen : ℕ → ℕ
-  | 0 => 1
-  | n + 1 => 2 * dlen n + 1
-
-theorem dlen_pos (n : ℕ) : 1 ≤ dlen n := by cases n <;> simp [dlen]
-
-theorem dlen_eq (n : ℕ) : dlen n = 2 ^ (n + 1) - 1 := by
-  induction n with
-  | zero => rfl
-  | succ n ih =>
-      have : 1 ≤ 2 ^ (n + 1) := Nat.one_le_two_pow
-      rw [dlen, ih, pow_succ 2 (n + 1)]; omega
-
-/-- iterating `double` from the first coefficient of a formal solution -/
-theorem iter_double_spec (fs : List (Expr K)) (U : ℕ → K⟦X⟧) (Tps : K⟦X⟧) (hode : SolvesODE fs U Tps)
-    (hw : ∀ f ∈ fs, f.width ≤ fs.length) (n : ℕ) :
-    iter (fun tc => double fs tc (truncT (2 * tc.length) Tps)) n (tcOf fs U 1) = tcOf fs U (dlen n) := by
-  induction n with
-  | zero => rfl
-  | succ n ih =>
-      rw [iter_succ', ih]
-      unfold double
-      rw [tcOf_length]
-      exact doubleN_spec hode hw (dlen n) (dlen_pos n)
-
-/-- the coefficient list of `taylorCoeffs` for a first-order problem, entry by entry -/
-theorem tc_eq_tabulate (fs : List (Expr K)) (u0 : List K) (t : K) (N : ℕ) (hu : u0.length = fs.length) :
-    taylorCoeffs fs [u0] t N = tabulate (1 + N) fun j => tabulate fs.length fun i => tcSeq fs [u0] t j i := by
-  refine list_ext_getD [] (by simp [tc_length]) fun k hk => ?_
-  have hk' : k < 1 + N := by rw [tc_length] at hk; simpa [Nat.add_comm] using hk
-  rw [tabulate_getD_lt _ hk']
-  have hlen : ((taylorCoeffs fs [u0] t N).getD k []).length = fs.length := by
-    rcases Nat.eq_zero_or_pos k with rfl | hpos
-    · rw [tc_inits fs [u0] t N 0 (by simp)]; simpa using hu
-    · obtain ⟨j, rfl⟩ : ∃ j, k = ([u0] : List (List K)).length + j := ⟨k - 1, by simp; omega⟩
-      rw [tc_getD_stable fs [u0] t (show j + 1 ≤ N by simp at hk'; omega) (by simp), tc_succ,
-        ← tc_length fs [u0] t j, getD_append_length]
-      simp
-  refine list_ext_getD 0 (by rw [hlen]; simp) fun i hi => ?_
-  rw [hlen] at hi
-  rw [tabulate_getD_lt _ hi, tcSeq_eq fs [u0] t (N := N) (by simpa [Nat.add_comm] using hk') i]
-  rfl
-
-
 /-- the solution curve of the first-order problem `u' = f'(u, t + X)`, `u(0) = u0`, and a program `fs`
 with `f(·, Tps) = f'(·, t + X)`: it solves the ODE in the normalised-coefficient form used by `double` -/
 theorem solvesODE_of_tcSeq (fs fs' : List (Expr K)) (u0 : List K) (t : K) (Tps : K⟦X⟧)
@@ -454,21 +403,6 @@ theorem solvesODE_of_tcSeq (fs fs' : List (Expr K)) (u0 : List K) (t : K) (Tps :
   have := hord' _ hmem
   have : k = 0 := by omega
   subst this; rfl
-
-theorem factorialScale_tcOf (fs fs' : List (Expr K)) (u0 : List K) (t : K) (m : ℕ) (hlen : fs'.length = fs.length) :
-    factorialScale (tcOf fs (fun i => curve (tcSeq fs' [u0] t) 0 i) m)
-      = tabulate m fun j => tabulate fs'.length fun i => tcSeq fs' [u0] t j i := by
-  unfold factorialScale
-  rw [tcOf_length]
-  refine tabulate_congr fun j hj => ?_
-  unfold tcOf
-  rw [tabulate_getD_lt _ hj]
-  unfold avec tabulate
-  rw [List.map_map, hlen]
-  refine List.map_congr_left fun i _ => ?_
-  simp only [Function.comp, curve, coeff_mk, Nat.zero_add, factK_eq]
-  have : (j.factorial : K) ≠ 0 := by exact_mod_cast Nat.factorial_ne_zero j
-  field_simp
 
 /-- generic form: the doubling recursion with the time series `truncT Tps` computes the Taylor
 coefficients of `u' = f'(u, t + X)` whenever `f(·, Tps) = f'(·, t + X)` -/
